@@ -182,6 +182,36 @@ def token_pos(tokens, pred):
     return None
 
 
+def planted_error_positions(kind, tokens, stmt_toks):
+    """Exact (message prefix, (line, col)) pairs the planted mistake of c08.plant must produce."""
+    def first(pred, nth=0):
+        hits = [t for t in tokens if pred(t)]
+        return (hits[nth]['line'], hits[nth]['col']) if len(hits) > nth else None
+    if kind == 'duplicate':
+        d = lambda t: t['kind'] == 'defname' and t['payload'][1] == 'DUP'
+        return [('Duplicate nonterminal definition', first(d, 1)), ('Previous definition', first(d, 0))]
+    if kind == 'unknownshell':
+        t = [t for t in tokens if t['kind'] == 'defname' and t['payload'][1] == 'KSH']
+        if t:
+            return [('Unknown shell', (t[0]['line'], t[0]['col'] + 1 + len('KSH') + 1))]
+    if kind == 'slash':
+        return [('Invalid command name', first(lambda t: t['kind'] == 'cmdname'))]
+    if kind == 'noncmdspec':
+        for i, t in enumerate(tokens):
+            if t['kind'] == 'defname' and t['payload'][1] == 'NCS':
+                for u in tokens[i + 1:]:
+                    if u['kind'] == '=':
+                        j = tokens.index(u)
+                        n = tokens[j + 1]
+                        return [('Can only specialize external commands', (n['line'], n['col']))]
+    if kind == 'spaces':
+        return [('Adjacent literals', first(lambda t: t['kind'] == 'lit' and t['payload'][1] == 'pa')),
+                ('Second one', first(lambda t: t['kind'] == 'lit' and t['payload'][1] == 'pb'))]
+    if kind == 'nontail':
+        return [('Ambiguous grammar', first(lambda t: t['kind'] == 'nt' and t['payload'][1] == 'PU'))]
+    return []
+
+
 def make_jobs(tier, seed):
     k = 48 if tier == 'quick' else 400
     return [('j', seed * 1000003 + i, 60) for i in range(k)]
@@ -229,6 +259,9 @@ def run_job(job, acc):
                 if t['off'] >= st['end'] and t['line'] == st['end_line']:
                     t['col'] += shift
             planted = {'msg': 'Parse error', 'pos': (st['line'], st['col']), 'strict': True}
+        must = []
+        if label.startswith('error:') and exp:
+            must = planted_error_positions(kind, tokens, stmt_toks)
         rc, out, err = comp.compile_text(text, shell)
         acc.evals += 1
         acc.count('runs_' + label)
@@ -237,6 +270,22 @@ def run_job(job, acc):
             continue
         ok, nd = check_output(text, tokens, stmt_toks, err.decode('utf-8', 'replace'), acc,
                               {'shell': shell, 'label': label, 'seed': s, 'i': i}, planted)
+        if ok and must and rc == 1:
+            diags = parse_diags(err.decode('utf-8', 'replace'))
+            have = {(d['msg'] or ' '.join(d['labels']), (d['line'], d['col'])) for d in diags}
+            for msg, pos in must:
+                if pos is None:
+                    continue
+                if not any(m.startswith(msg) and q == pos for m, q in have):
+                    ok = False
+                    acc.violation({'sig': 'planted-error-location:' + msg[:30], 'grammar': text,
+                                   'what': 'no %r diagnostic at the planted construct %s' % (msg, pos),
+                                   'expected': {'msg': msg, 'pos': pos},
+                                   'observed': sorted((q, m) for m, q in have)[:8],
+                                   'meta': {'shell': shell, 'label': label, 'seed': s, 'i': i},
+                                   'tokens': slim(tokens), 'stmt_toks': slim(stmt_toks)})
+                    break
+                acc.count('planted_error_locations_confirmed')
         if nd:
             acc.seen(text)
             if lay is not None and text.count('\n') > 2:
